@@ -107,6 +107,7 @@ def exitSteps (ord : DropOrder) (checksPanicking : Bool) : ExitState → List Fi
       exitSteps ord checksPanicking { e' with verifs := [] } fs
     | Field.lock => exitSteps ord checksPanicking { e with lockHeld := false } fs
     | Field.other => exitSteps ord checksPanicking e fs
+    | Field.unknown => exitSteps ord checksPanicking e fs
 
 def scopeExit (ord : DropOrder) (checksPanicking : Bool) (order : List Field) (st : LifeState) : ExitState :=
   exitSteps ord checksPanicking
